@@ -88,7 +88,7 @@ def importer_of(P, cls, rules):
     return imp("top")
 
 
-def run_history(P, gr, strings, mus, warm=True):
+def run_history(P, gr, strings, mus, warm=True, between=True):
     """returns (cls, rules, [(s, i, lparse outcome)], [other observations at the same positions and right after each mutation])"""
     cls, rules = G.build(P, gr)
     top = None
@@ -107,6 +107,8 @@ def run_history(P, gr, strings, mus, warm=True):
     api = []
     for mu in mus:
         apply_mutation(P, cls, rules, mu)
+        if not between:
+            continue        # the twin that reaches the final state without a single request on the way
         # the FIRST requests after a mutation, through the match-listing entry point, then the others (compared with the
         # fresh build, where nothing was cached before)
         for s in strings[:3]:
@@ -158,14 +160,33 @@ def run(ctx):
     for gr, strings, mus in hist:
         # a grammar on which the real code needs more than a few CPU seconds for these short inputs is a matter for C12
         # (work bound, known finding F14): skipped and counted
-        both = ec.with_budget(4 * ec.CASE_BUDGET_S, lambda: (run_history(P, gr, strings, mus, warm=True), run_history(P, gr, strings, mus, warm=False)), None)
+        both = ec.with_budget(4 * ec.CASE_BUDGET_S, lambda: (run_history(P, gr, strings, mus, warm=True), run_history(P, gr, strings, mus, warm=False),
+                                                              run_history(P, gr, strings, mus, warm=False, between=False)), None)
         if both is None:
             slow_skipped += 1
             continue
         kept.append((gr, strings, mus))
-        (cls, rules, warm_out, warm_api), (_, _, cold_out, cold_api) = both
+        (cls, rules, warm_out, warm_api), (_, _, cold_out, cold_api), (_, _, direct_out, direct_api) = both
         base_cls, base_rules = G.build(P, gr)
         differs = False
+        # against the twin on which NO request was made before the final state was reached
+        for (s, i, w0), (_, _, d0) in zip(warm_out, direct_out):
+            evals += 1
+            if w0 != d0 and rep < 3:
+                found = True
+                rep += 1
+                ctx.report("stale result after mutations %s: source=%r offset=%d with requests in between=%r, grammar brought to the same state without requests=%r"
+                           % ([m[:2] for m in mus], s, i, w0[:120], d0[:120]),
+                           {"kind": "history", "grammar": gr, "strings": strings, "mutations": mus, "source": [ord(ch) for ch in s], "source_repr": repr(s),
+                            "offset": i, "warm": w0, "fresh": d0}, key="history-direct:" + lib.digest([gr, mus, s, i]))
+        for k, (wa, da) in enumerate(zip(warm_api[len(warm_api) - len(direct_api):], direct_api)):
+            evals += 1
+            if wa != da and rep < 3:
+                found = True
+                rep += 1
+                ctx.report("stale result after mutations %s (final observation %d): with requests in between=%r, without=%r" % ([m[:2] for m in mus], k, wa[:140], da[:140]),
+                           {"kind": "history", "grammar": gr, "strings": strings, "mutations": mus, "observation": k, "warm": wa, "fresh": da},
+                           key="history-direct-api:" + lib.digest([gr, mus, k]))
         for (s, i, w0), (_, _, c0) in zip(warm_out, cold_out):
             evals += 1
             if w0 != c0 and rep < 3:
@@ -222,6 +243,7 @@ def replay(rp):
     mus = [tuple(m) for m in rp["mutations"]]
     _, _, w, wa = run_history(P, gr, rp["strings"], mus, warm=True)
     _, _, c, ca = run_history(P, gr, rp["strings"], mus, warm=False)
-    bad = [(a, b) for a, b in zip(w + wa, c + ca) if a != b]
-    print("differences warm vs fresh build:", bad[:3])
+    _, _, d, da = run_history(P, gr, rp["strings"], mus, warm=False, between=False)
+    bad = [(a, b) for a, b in zip(w + wa, c + ca) if a != b] + [(a, b) for a, b in zip(w + wa[len(wa) - len(da):], d + da) if a != b]
+    print("differences warm vs fresh build / vs the state reached without requests:", bad[:3])
     return 1 if bad else 0
